@@ -3,6 +3,7 @@ CONSTANT N = 4
 CONSTANT MaxDeg = 2
 CONSTANT StubCap = 5
 CONSTANT Configs <- AllConfigs
+CONSTANT MaxCalls = 1
 CONSTANT PinnedLen2 = FALSE
 INVARIANT C01_Count
 INVARIANT C01_Slots
